@@ -9,6 +9,7 @@ import (
 	"net/http"
 	"net/http/httptest"
 	"strings"
+	"time"
 
 	"github.com/transparency-dev/witness/internal/config"
 	"github.com/transparency-dev/witness/internal/feeder/bastion"
@@ -64,7 +65,7 @@ func (b *bastionSession) serve(body []byte, class string, expect int, expectBody
 	req := httptest.NewRequest(http.MethodPost, "/", bytes.NewReader(body))
 	rec := httptest.NewRecorder()
 	status := 0
-	func() {
+	answered := withDeadline(10*time.Second, func() {
 		defer func() {
 			if r := recover(); r != nil {
 				status = 999
@@ -72,8 +73,24 @@ func (b *bastionSession) serve(body []byte, class string, expect int, expectBody
 		}()
 		b.h.ServeHTTP(rec, req)
 		status = rec.Code
-	}()
+	})
+	if !answered {
+		// the request was left unanswered (e.g. the single storage connection is pinned by an open transaction):
+		// 998 in the record; nothing more can be learnt from this witness
+		b.dead = true
+		hangCount++
+		b.t.line("H %s allow=%d body=%s states=%s class=%s expect=- expectbody=- => status=998 ctype=. rbody=. post=%s",
+			b.id, allow, hx(body), pre, class, pre)
+		return 998
+	}
 	post := b.states()
+	if b.dead {
+		// the request was answered but the next operation on the store never returned
+		hangCount++
+		b.t.line("H %s allow=%d body=%s states=%s class=%s expect=- expectbody=- => status=998 ctype=. rbody=. post=%s",
+			b.id, allow, hx(body), pre, class, pre)
+		return 998
+	}
 	rbody := rec.Body.Bytes()
 	if status == 200 {
 		// independent verification of the returned cosignature line(s) over the submitted text
@@ -154,9 +171,13 @@ func scenarioBastion(t *traceWriter, rng *rand.Rand) {
 		if allowN > 0 {
 			n = 6
 		}
-		for i := 0; i < n; i++ {
+		for i := 0; i < n && !bs.dead; i++ {
 			ls := lss[rng.Intn(len(lss))]
 			bs.oneRequest(w, ls)
+		}
+		if hangCount >= 3 {
+			bs.end()
+			return
 		}
 		bs.end()
 	}
@@ -364,9 +385,16 @@ func scenarioParseBody(t *traceWriter, rng *rand.Rand) {
 		if rng.Intn(3) > 0 {
 			np = rng.Intn(5)
 		}
+		hl := func() int { return 1 + rng.Intn(64) }
+		if i%25 == 7 {
+			// the top of the quantified range: up to 64 hashes of up to 64 bytes, so that the proof lines alone exceed
+			// the 4096-byte buffer of the line reader and the body arrives in several reads
+			np = 40 + rng.Intn(25)
+			hl = func() int { return 48 + rng.Intn(17) }
+		}
 		var proof [][]byte
 		for j := 0; j < np; j++ {
-			proof = append(proof, randHash(rng, 1+rng.Intn(64)))
+			proof = append(proof, randHash(rng, hl()))
 		}
 		var cp []byte
 		switch rng.Intn(6) {
